@@ -6,7 +6,7 @@ real expr.Hash / Equal / Dup / DupAtt (Hash 20x per flag combination, and once m
 compared with the model's prediction.
 (J) random graphs up to 5 nodes / depth 5 are exercised by the driver and the recorded events are validated
 against Trace_TypeGraph.tla."""
-import json, os, subprocess
+import hashlib, json, os, subprocess
 from vlib import core
 
 DEVS = ["hash.union_order_dependent", "hash.meta_iteration_order", "dup.meta_values_shared"]
@@ -198,7 +198,7 @@ def compare_hash(ctx, v, o, o2, nontrivial):
         ctx.cov["evaluations"] += 1
         t = j["t"]
         if big:
-            nontrivial.add(core.canon([g, t]))
+            nontrivial.add(digest([g, t]))
         inp = {"mode": "hash", "g": g, "ts": [t]}
         if x.get("panic"):
             report(ctx, "C13/hash/%s/panic" % t["op"], "panic in the real code: %s" % x["panic"][:200], inp, {"observed": x}, why=[])
@@ -240,7 +240,7 @@ def compare_dup(ctx, v, o, nontrivial):
     ctx.cov["evaluations"] += 1
     g, script, pred = v["g"], v["script"], v["pred"]
     if script or any(n["kind"] in ("user", "result") for n in g["nodes"]):
-        nontrivial.add(core.canon([g, script]))
+        nontrivial.add(digest([g, script]))
     inp = {"mode": "dup", "g": g, "script": script}
     ops = "+".join("%s.%s" % (s["side"], s["op"]) for s in script) or "none"
     if o.get("panic"):
@@ -288,6 +288,38 @@ def gen_runs(quick):
     return runs
 
 
+def digest(x):
+    return hashlib.blake2b(core.canon(x).encode(), digest_size=8).digest()
+
+
+def replay_vectors(ctx, raw, seen, nontrivial, label):
+    """Decode the vectors of one TLC run, drop the cases an earlier run already had, execute them on the real
+    code (the hash direction twice: the second time in a fresh process) and compare with the predictions."""
+    vectors = []
+    for x in raw:
+        v = dec_vec(x)
+        k = digest(driver_input(v))
+        if k not in seen:
+            seen.add(k)
+            vectors.append(v)
+    inputs = [driver_input(v) for v in vectors]
+    obs, _, skipped = drive(ctx, inputs, label="vectors")
+    hidx = [i for i, v in enumerate(vectors) if v["mode"] == "hash" and i not in skipped]
+    obs2 = {}
+    if hidx:
+        obs2, _, sk2 = drive(ctx, [inputs[i] for i in hidx], args=["-reps", "1"], label="fresh-process")
+    for n, i in enumerate(hidx):
+        if i not in obs or n not in obs2:
+            raise core.Infra("driver returned no observation for vector %d of %s" % (i, label))
+        compare_hash(ctx, vectors[i], obs[i], obs2[n], nontrivial)
+    for i, v in enumerate(vectors):
+        if v["mode"] == "dup" and i not in skipped:
+            if i not in obs:
+                raise core.Infra("driver returned no observation for vector %d of %s" % (i, label))
+            compare_dup(ctx, v, obs[i], nontrivial)
+    ctx.log("%s: %d distinct cases replayed and compared" % (label, len(vectors)))
+
+
 def run(ctx):
     quick = ctx.quick()
     ctx.cov["rule"] = ("cases = (graph, transformation) pairs judged under the 8 flag combinations, (graph, mutation script) pairs, and "
@@ -307,47 +339,22 @@ def run(ctx):
     ctx.mc_expect_violation("mc/MC_TypeGraph", consts=dict(small, Modes='{"hash"}', Deviations='{"%s"}' % DEVS[0]), label="MC dev union")
     ctx.mc_expect_violation("mc/MC_TypeGraph", consts=dict(small, Modes='{"hash"}', Deviations='{"%s"}' % DEVS[1]), label="MC dev meta order")
     ctx.mc_expect_violation("mc/MC_TypeGraph", consts=dict(small, Modes='{"dup"}', Decos="{3}", Deviations='{"%s"}' % DEVS[2]), label="MC dev meta shared")
-    # (M)+(G) exhaustive enumeration with the invariants checked, every case emitted
-    vectors, seen = [], set()
+    # (M)+(G) exhaustive enumeration with the invariants checked; every emitted case is replayed on the real code
+    seen, nontrivial = set(), set()
     for label, consts in gen_runs(quick):
-        r = ctx.gen("mc/MC_TypeGraph", "gen/Gen_TypeGraph.cfg", consts=consts, label=label, timeout=3000, heap="24g" if not quick else None)
-        for raw in r.vectors:
-            v = dec_vec(raw)
-            k = core.canon(driver_input(v))
-            if k not in seen:
-                seen.add(k)
-                vectors.append(v)
+        r = ctx.gen("mc/MC_TypeGraph", "gen/Gen_TypeGraph.cfg", consts=consts, label=label, timeout=3000, heap=None if quick else "24g")
+        replay_vectors(ctx, r.vectors, seen, nontrivial, label)
+        r.vectors, r.stdout = [], ""
     if not quick:
         # 5 nodes: random walks through Build and the rest of the machine (invariants checked, cases emitted)
-        r = ctx.gen("mc/MC_TypeGraph", "gen/Gen_TypeGraph.cfg", simulate=4000, depth=40, label="simulate N<=5",
+        r = ctx.gen("mc/MC_TypeGraph", "gen/Gen_TypeGraph.cfg", simulate=3000, depth=40, label="simulate N<=5",
                     consts=dict(N=5, K=3, Leaves='{"string", "int"}', UKinds='{"user", "result"}', Modes='{"hash", "dup"}', Decos="{0, 1, 3}",
                                 MaxSteps=5, Script='"free"'), timeout=3000)
-        for raw in r.vectors:
-            v = dec_vec(raw)
-            k = core.canon(driver_input(v))
-            if k not in seen:
-                seen.add(k)
-                vectors.append(v)
+        replay_vectors(ctx, r.vectors, seen, nontrivial, "simulate")
+        r.vectors, r.stdout = [], ""
     del seen
-    ctx.log("%d distinct cases" % len(vectors))
-    inputs = [driver_input(v) for v in vectors]
-    obs, _, skipped = drive(ctx, inputs, label="vectors")
-    # Stable across fresh processes: the hash direction once more in a new process
-    hidx = [i for i, v in enumerate(vectors) if v["mode"] == "hash" and i not in skipped]
-    obs2, _, _ = drive(ctx, [inputs[i] for i in hidx], args=["-reps", "1"], label="fresh-process")
-    nontrivial = set()
-    for n, i in enumerate(hidx):
-        if i not in obs or n not in obs2:
-            raise core.Infra("driver returned no observation for vector %d" % i)
-        compare_hash(ctx, vectors[i], obs[i], obs2[n], nontrivial)
-    for i, v in enumerate(vectors):
-        if v["mode"] == "dup" and i not in skipped:
-            if i not in obs:
-                raise core.Infra("driver returned no observation for vector %d" % i)
-            compare_dup(ctx, v, obs[i], nontrivial)
-    ctx.log("compared")
     # (J) random graphs up to 5 nodes, judged by trace validation
-    nrand = 150 if quick else 4000
+    nrand = 150 if quick else 2000
     d = ctx.subdir("random")
     binp = ctx.gobuild(DRIVER)
     tpath = os.path.join(d, "trace.ndjson")
@@ -417,7 +424,7 @@ def validate_trace(ctx, lines, nontrivial, maxfail=4):
         e = json.loads(l)
         if e["ev"] != "reset":
             ctx.cov["evaluations"] += 1
-            nontrivial.add(core.canon(e))
+            nontrivial.add(digest(e))
     ctx.sample({"trace_event": json.loads(lines[1])})
     return validated
 
